@@ -196,9 +196,15 @@ ASTNode *ExpressionParser::parseAssignment() {
                 ASTNode *array_ref_copy =
                     new ASTNode(ASTNodeType::AST_ARRAY_REF);
                 // 配列参照をコピー（左辺と右辺で同じものを参照）
+                // An index expression with a side effect (a[f()] op= v,
+                // a[i++] op= v) must be evaluated once: the copy is marked
+                // and reads the element with the index values evaluated for
+                // the assignment target (Interpreter::assign_target_indices_).
+                if (!isRepeatableExpr(left)) {
+                    array_ref_copy->reuse_assign_target_indices = true;
+                }
                 if (left->left &&
-                    left->left->node_type != ASTNodeType::AST_VARIABLE &&
-                    isRepeatableExpr(left->left.get())) {
+                    left->left->node_type != ASTNodeType::AST_VARIABLE) {
                     // m[i][j] op= v, s.a[i] op= v: the base of the element is
                     // itself an element or member access (it has no name of
                     // its own); copy it completely.
@@ -223,6 +229,10 @@ ASTNode *ExpressionParser::parseAssignment() {
                                ASTNodeType::AST_NUMBER) {
                         index_copy = new ASTNode(ASTNodeType::AST_NUMBER);
                         index_copy->int_value = left->array_index->int_value;
+                    } else {
+                        // computed index: a[i * 2 + 1] op= v
+                        index_copy =
+                            parser_->cloneAstNode(left->array_index.get());
                     }
                 }
                 array_ref_copy->array_index =
